@@ -216,6 +216,27 @@ def run(rep, tier):
                         atom = cond_atoms(blk.cond)[0] if blk.cond is not None else ""
                         if not any(a in atom for a in allowed):
                             bad_exit.append((b, atom))
+            # no return may bypass the wake loop: every path from the permit update to the exit enters the loop (its own exits are
+            # the only way not to notify: no waiters / no permits / count reached)
+            # (paths that leave before the permits are added have nothing to wake for)
+            start = adds[0][0] if adds else fn.entry
+            seen, work, bypass = {start}, [start], None
+            while work:
+                b = work.pop()
+                if b == fn.exit:
+                    bypass = b
+                    break
+                for _, t in fn.succs(b):
+                    if t not in loop and t not in seen:
+                        seen.add(t)
+                        work.append(t)
+            if bypass is not None:
+                rets = [loc_of(e) for b in seen for e in fn.blocks[b].events if e.get("k") == "return"]
+                rep.bad("C08.R5", fn, rets[0] if rets else fn.loc, "wake-loop-bypass",
+                        "%s can return without entering the wake loop: permits are added but queued waiters are "
+                        "never notified (return at %s)" % (fn.qname, rets))
+            else:
+                rep.ok("C08.R5", fn, "every path to the exit enters the wake loop")
             if bad_exit:
                 rep.bad("C08.R5", fn, loc_of(nev), "wake-loop-exit", "wake loop can be left on a condition other than "
                         "no-waiters / no-permits / count reached: %s" % bad_exit)
